@@ -19,3 +19,9 @@ pub open spec fn server_caused(e: HttpError) -> bool {
 pub open spec fn err_code(e: HttpError) -> u16 {
     if server_caused(e) { 500 } else if e is BodyTooLong { 413 } else if e is HeadTooLong { 431 } else if e is UnsupportedProtocol { 505 } else { 400 }
 }
+// the UTF-8 form of a text as String::into_bytes yields it (uninterpreted)
+pub uninterp spec fn text_bytes(s: Seq<char>) -> Seq<u8>;
+// a body that consists of exactly the text `t`, as a static text or as its bytes
+pub open spec fn body_says(b: ResponseBody, t: Seq<char>) -> bool {
+    match b { ResponseBody::StaticStr(s) => s@ == t, ResponseBody::Vec(v) => v@ == text_bytes(t), _ => false }
+}
